@@ -457,6 +457,15 @@ func fileIdRecords(rng *Rand, ft byte, local byte, arch byte, extra bool, unknow
 			data.Data = append(data.Data, GenFieldData(rng, pf, fd, arch, o))
 		}
 	}
+	if unknown > 0 && rng.Chance(unknown, 150) {
+		// developer fields on the leading file_id message (their bytes follow the native fields)
+		def.HasDev = true
+		for k := 1 + rng.Intn(3); k > 0; k-- {
+			sz := 1 + rng.Intn(12)
+			def.Dev = append(def.Dev, ref.DevDef{Num: rng.Byte(), Size: byte(sz), Idx: byte(rng.Intn(3))})
+			data.Data = append(data.Data, rng.Bytes(sz))
+		}
+	}
 	return []ref.Record{def, data}
 }
 
